@@ -113,6 +113,29 @@ pub fn check_case(acc: &mut Acc, c: &Case) {
     check(acc, c, "from_str(print())", run(|| Hex::from_str(&h.print()).ok().map(|x| (x.bytes().to_vec(), x == h))), Ok(Some((b.clone(), true))));
     check(acc, c, "to_i64()", run(|| h.to_i64().ok()), Ok(<[u8; 8]>::try_from(b.as_slice()).ok().map(i64::from_be_bytes)));
     check(acc, c, "to_f64()", run(|| h.to_f64().ok().map(f64::to_bits)), Ok(<[u8; 8]>::try_from(b.as_slice()).ok().map(|a| f64::from_be_bytes(a).to_bits())));
+    // what print() says follows the bytes: printed, edited in place, printed again; then the value is
+    // dropped and another one of the same length is printed (an answer remembered by address would be stale)
+    if len > 0 {
+        let mut e = b.clone();
+        e[0] ^= 0xA5;
+        e[len - 1] = e[len - 1].wrapping_add(0x11);
+        check(
+            acc,
+            c,
+            "print(); edit in place; print()",
+            run(|| {
+                let mut x = h.clone();
+                let _ = (x.print(), format!("{x}"), format!("{x:?}"));
+                x[0] ^= 0xA5;
+                x[len - 1] = x[len - 1].wrapping_add(0x11);
+                let again = (x.print(), format!("{x}"), format!("{x:?}"), x.to_vec());
+                drop(x);
+                let y = Hex::from_vec(vec![0x77; len]);
+                (again, y.print())
+            }),
+            Ok(((ref_print(&e), ref_print(&e), ref_print(&e), e.clone()), ref_print(&vec![0x77; len]))),
+        );
+    }
     for i in idx_set(len) {
         check(acc, c, &format!("index[{i}]"), run(|| h[i]), run(|| b[i]));
         check(acc, c, &format!("byte_at({i})"), run(|| h.byte_at(i)), run(|| b[i]));
@@ -326,6 +349,14 @@ pub fn run_c16(tier: &str) -> Outcome {
             }
         }
     }
+    // longer operands around 32, 64, 128, 256 bytes and one of 1000 (one content, two representations)
+    for len in [31usize, 32, 33, 56, 57, 63, 64, 65, 127, 128, 129, 255, 256, 257, 1000] {
+        if len > max_len {
+            for r in ["from_slice", "Vector"] {
+                dom.push(Case { bytes: (0..len).map(|i| (0x10 + i % 0x60) as u8).collect(), rep: r });
+            }
+        }
+    }
     let n = dom.len();
     let acc = super::par_cases(n * n, |k, acc| {
         let (ca, cb0) = (&dom[k / n], &dom[k % n]);
@@ -336,7 +367,7 @@ pub fn run_c16(tier: &str) -> Outcome {
             acc.sample(json!({"a": ref_print(&ca.bytes), "a_representation": ca.rep, "b": ref_print(&cb.bytes), "b_representation": cb.rep}));
         }
     });
-    let rule = format!("every pair (a,b) of byte strings of length 0..={max_len} in every representation (from_slice, Hex::Bytes with non-zero padding, Hex::Vector), three contents per length (position-distinct bytes, all 00, all 7F/FF); oracle: bytes(a.concat(b)) == a ++ b, a and b unchanged in bytes and representation; PLUS chains: the result edited in place through IndexMut (first and last byte) is concatenated with b, with 2 and with 9 other bytes (== its present bytes ++ c), then dropped, and a fresh value of the same length is concatenated with b. distinct_nontrivial = distinct (a,b) pairs");
+    let rule = format!("every pair (a,b) of byte strings of length 0..={max_len} in every representation (from_slice, Hex::Bytes with non-zero padding, Hex::Vector), three contents per length (position-distinct bytes, all 00, all 7F/FF), plus operands of 31..33, 56, 57, 63..65, 127..129, 255..257 and 1000 bytes; oracle: bytes(a.concat(b)) == a ++ b, a and b unchanged in bytes and representation; PLUS chains: the result edited in place through IndexMut (first and last byte) is concatenated with b, with 2 and with 9 other bytes (== its present bytes ++ c), then dropped, and a fresh value of the same length is concatenated with b. distinct_nontrivial = distinct (a,b) pairs");
     super::outcome("C16", tier, "exploration", &rule, acc, true, json!({}), t0.elapsed().as_secs_f64(), vec![], vec![])
 }
 
